@@ -8,9 +8,10 @@ declare -A CHK=( [C01a]=C02 [C02a]=C02 [C03a]=C03 [C04a]=C04 [C05a]=C05 [C06a]=C
 ids="$@"; [ -z "$ids" ] && ids=$(ls /verif/seeded | grep '^C[0-9][0-9][a-z]$')
 for n in $ids; do
   c=${CHK[$n]}
+  [ -z "$c" ] && c=${n:0:3}          # by default the check of the seed's own property
   out=/tmp/seedm_${n}_$c.log
   timeout 1500 /verif/tools/run_seed.sh /verif/seeded/$n/patch.diff $c > $out 2>&1
   rc=$?
-  sig=$(grep -m1 "signature:" $out | cut -c1-160)
+  sig=$(grep "signature:" $out | grep -v KNOWN | head -1 | cut -c1-160)
   echo "$n $c rc=$rc $sig" >> /tmp/seed_matrix.log
 done
